@@ -32,6 +32,7 @@ class Fn:
         hoist=None,
         macros=None,
         fragment=None,
+        str_match=False,
     ):
         self.file = file
         self.path = path if isinstance(path, list) else [p.strip() for p in path.split("::")]
@@ -67,6 +68,8 @@ class Fn:
         # that statement) is emitted as a function of its own: `sig { <statement> <tail> }`. Everything
         # else of the function is dropped (and said so in the evidence).
         self.fragment = fragment
+        # R14: desugar one `match` on string literals into an if-chain over `str_is`
+        self.str_match = str_match
 
 
 class Type:
@@ -163,6 +166,9 @@ def emit(unit):
                 hrw.text = "#[verifier::external_body]\n" + hrw.text
                 hrw.hit("ASSUMED-external_body")
             hoisted = (hrw, h)
+        if isinstance(it, Fn) and it.str_match:
+            if not rw.desugar_str_match():
+                raise ExtractError("%s: R14 requested but no match on string literals found" % label)
         if isinstance(it, Fn):
             for _ in range(getattr(it, "final_guards", 0)):
                 if not rw.desugar_final_guard():
